@@ -158,6 +158,14 @@ SHARED int stop_lp, stop_cnt;
 SHARED int dist_ranks; /* 0: single node */
 SHARED int contract_bad;
 SHARED int never_end;
+/* --real: no cooperative scheduler, truly concurrent worker threads; nothing is traced (the trace writer is not thread safe), only the
+ * final state of every LP is reported.  --freeze: an LP stops changing (and sending) once it has processed `need' events, so that the
+ * state at LP_FINI is the state at which its predicate first held - the one C01 speaks about - whatever was executed speculatively later. */
+SHARED int real_mode, freeze_mode;
+SHARED struct fin_rec {
+	int set, s, cnt, pred;
+	long a, b;
+} fin_recs[MAXLP];
 SHARED unsigned long hook_count;
 SHARED unsigned batch_size;
 
@@ -543,6 +551,12 @@ static void ProcessEvent(lp_id_t me, simtime_t now, unsigned ty, const void *pl,
 		do_sends(me, 0, M.init[me], M.ninit[me], 1, NULL, 0, 0);
 		return;
 	}
+	if(ty == LP_FINI && real_mode) {
+		struct digest dg;
+		digest(me, &dg);
+		fin_recs[me] = (struct fin_rec){1, st ? (int)st->s : -1, st ? (int)st->cnt : -1, pred_of(st, me), dg.a, dg.b};
+		return;
+	}
 	if(ty == LP_FINI) {
 		struct digest dg;
 		digest(me, &dg);
@@ -558,6 +572,8 @@ static void ProcessEvent(lp_id_t me, simtime_t now, unsigned ty, const void *pl,
 		_exit(0);
 	}
 
+	if(freeze_mode && (int)st->cnt >= M.need[me])
+		return;
 	int pid = pid_of(pl, sz);
 	const struct trans *e = &M.tr[st->s][ty];
 	int d = 0;
@@ -616,6 +632,8 @@ extern int thr_tag[64];
 #endif
 void verif_hook(unsigned p, uint64_t a, uint64_t b, uint64_t c, uint64_t d)
 {
+	if(real_mode)
+		return;
 	++hook_count;
 #ifdef TW_DIST
 	thr_tag[vs_self()] = thr_id();
@@ -808,6 +826,13 @@ long tw_mid_of(const void *p) { return mid_of(p); }
 int __wrap_gettimeofday(struct timeval *tv, void *tz)
 {
 	(void)tz;
+	if(!vs_active()) {
+		struct timespec ts;
+		clock_gettime(CLOCK_REALTIME, &ts);
+		tv->tv_sec = ts.tv_sec;
+		tv->tv_usec = ts.tv_nsec / 1000;
+		return 0;
+	}
 	unsigned long s = vs_steps();
 	tv->tv_sec = 1000 + s / 1000000;
 	tv->tv_usec = s % 1000000;
@@ -966,6 +991,8 @@ int main(int argc, char **argv)
 		else if(!strcmp(a, "--serial")) serial_mode = 1;
 		else if(!strcmp(a, "--quiet-core")) quiet_core = 1;
 		else if(!strcmp(a, "--never-end")) never_end = 1;
+		else if(!strcmp(a, "--real")) real_mode = 1;
+		else if(!strcmp(a, "--freeze")) freeze_mode = 1;
 		else if(!strcmp(a, "--threads")) threads = atoi(v), ++i;
 		else if(!strcmp(a, "--ckpt")) ckpt = atoi(v), ++i;
 		else if(!strcmp(a, "--gvt-period")) gvt_period = (unsigned)atoi(v), ++i;
@@ -1011,7 +1038,8 @@ int main(int argc, char **argv)
 	    dist_ranks, net_mode, skew, park);
 
 	vs_set_hang_cb(on_hang);
-	vs_init(seed, num, den, budget, policy);
+	if(!real_mode)
+		vs_init(seed, num, den, budget, policy);
 #ifdef TW_DIST
 	if(dist_ranks < 1 || dist_ranks > 3)
 		die("--ranks 1..3 required");
@@ -1049,6 +1077,10 @@ int main(int argc, char **argv)
 	int r = run_all(threads, ckpt, gvt_period, term_time, stats, prng);
 	if(stats)
 		dump_stats(stats);
+	if(real_mode)
+		for(int i = 0; i < M.nlps; ++i)
+			fprintf(out, "{\"n\":%lu,\"thr\":-1,\"e\":\"ModelFini\",\"lp\":%d,\"s\":%d,\"cnt\":%d,\"dgA\":%ld,\"dgB\":%ld,\"pred\":%d,\"set\":%d}\n",
+			    ++seqno, i, fin_recs[i].s, fin_recs[i].cnt, fin_recs[i].a, fin_recs[i].b, fin_recs[i].pred, fin_recs[i].set);
 	fprintf(out, "{\"n\":%lu,\"thr\":-1,\"e\":\"End\",\"ret\":%d,\"bad\":%d,\"steps\":%lu}\n", ++seqno, r, contract_bad,
 	    vs_steps());
 	fclose(out);
